@@ -1,4 +1,4 @@
-import RTV.Lemmas.TimexEval2
+import RTV.Lemmas.TimexDur
 /-!
 # C15 — TIMEX resolution and constraint solving only return correct, valid values
 
@@ -529,26 +529,30 @@ structure EvalHyp (cands constraints : List Str) (dranges : List DateRange) (tra
   tr : ((constraints.map (parse genCfg)).filter fun t => (infer t).timerange).mapM (timerangeFromTimex genCfg) = .ok tranges
   conClock : ∀ t ∈ constraints.map (parse genCfg), (infer t).time = true → ClockT (timeFromTimex t)
 
-/-- C15 **evaluate_sound** — for ANY list of candidates of the families weekday, month-day, time of day,
-weekday + time, month-day + time and any constraints with at least one date range (and any number of time ranges,
-times, …) satisfying `EvalHyp`, every TIMEX string `s` that `evaluate` returns
-* is **definite**: `Timex(s)` is exactly the date `d` (a valid calendar date) with an optional time `tmo`;
-* is an **instance of a candidate** `c`: same weekday / same month and day, and `c`'s own time if it has one;
-* lies inside at least one **supplied** date range `r0`;
-* and, when time ranges are supplied, has a time of day inside at least one **supplied** time range `tr0`.
-(Stated against what `is_overlapping` / `collapse_overlapping` really compute: collapsing only intersects.) -/
-theorem evaluate_sound (cands constraints : List Str) (dranges : List DateRange) (tranges : List TimeRange)
+/-- stages 2–4 of `evaluate` (date ranges, times, time ranges) on the list `a` that stage 1 hands on -/
+def stages234 (cfg : Cfg) (fuel : Nat) (a constraints : List Str) : R (List Str) := do
+  let tcs := constraints.map (parse cfg)
+  let b ← resolveByDateRangeConstraints cfg fuel a tcs
+  let c ← resolveByTimeConstraints cfg b tcs
+  resolveByTimerangeConstraints cfg fuel c tcs
+
+theorem evaluate_eq_stages (cfg : Cfg) (fuel : Nat) (cands constraints : List Str) :
+    evaluate cfg fuel cands constraints =
+      (do let a ← resolveDurations cfg cands (constraints.map (parse cfg))
+          stages234 cfg fuel a constraints) := rfl
+
+/-- soundness of stages 2–4 for any list `a` of strings of the families of `CandKind` (this is `evaluate_sound` with
+stage 1 factored out, so that it also serves the duration candidates, whose stage-1 results are definite dates) -/
+theorem stages234_sound (cands constraints : List Str) (dranges : List DateRange) (tranges : List TimeRange)
     (hyp : EvalHyp cands constraints dranges tranges) (fuel : Nat) (out : List Str)
-    (hout : evaluate genCfg fuel cands constraints = .ok out) :
+    (hout : stages234 genCfg fuel cands constraints = .ok out) :
     ∀ s ∈ out, ∃ c ∈ cands, ∃ (d : Date) (tmo : Option Time), ∃ r0 ∈ dranges,
       d.valid = true ∧ s = isoDateStr d ++ fmtTime tmo ∧ parse genCfg s = dateTimex d tmo ∧
       r0.s ≤ d.ord ∧ d.ord < r0.e ∧ Instance (parse genCfg c) d tmo ∧
       (tranges ≠ [] → ∃ tm ms, ∃ tr0 ∈ tranges, tmo = some tm ∧ msOf tm.hour tm.minute tm.second = .ok ms ∧
         tr0.s ≤ ms ∧ ms < tr0.e) := by
-  unfold evaluate at hout
-  dsimp only at hout
-  rw [resolveDurations_eq, resolveDurations_nodur genCfg _ cands [] (fun c hc => candKind_nodur _ (hyp.cand c hc))] at hout
-  simp only [List.nil_append, bind, Except.bind] at hout
+  unfold stages234 at hout
+  simp only [bind, Except.bind] at hout
   cases hb : resolveByDateRangeConstraints genCfg fuel cands (constraints.map (parse genCfg)) with
   | error e => simp [hb] at hout
   | ok b =>
@@ -589,6 +593,215 @@ theorem evaluate_sound (cands constraints : List Str) (dranges : List DateRange)
       rw [hps] at htm
       exact ⟨tm, ms, tr0, htr0, by simpa [dateTimex] using htm, hms, h1, h2'⟩
 
+
+/-- C15 **evaluate_sound** — for ANY list of candidates of the families weekday, month-day, time of day,
+weekday + time, month-day + time and any constraints with at least one date range (and any number of time ranges,
+times, …) satisfying `EvalHyp`, every TIMEX string `s` that `evaluate` returns
+* is **definite**: `Timex(s)` is exactly the date `d` (a valid calendar date) with an optional time `tmo`;
+* is an **instance of a candidate** `c`: same weekday / same month and day, and `c`'s own time if it has one;
+* lies inside at least one **supplied** date range `r0`;
+* and, when time ranges are supplied, has a time of day inside at least one **supplied** time range `tr0`.
+(Stated against what `is_overlapping` / `collapse_overlapping` really compute: collapsing only intersects.) -/
+theorem evaluate_sound (cands constraints : List Str) (dranges : List DateRange) (tranges : List TimeRange)
+    (hyp : EvalHyp cands constraints dranges tranges) (fuel : Nat) (out : List Str)
+    (hout : evaluate genCfg fuel cands constraints = .ok out) :
+    ∀ s ∈ out, ∃ c ∈ cands, ∃ (d : Date) (tmo : Option Time), ∃ r0 ∈ dranges,
+      d.valid = true ∧ s = isoDateStr d ++ fmtTime tmo ∧ parse genCfg s = dateTimex d tmo ∧
+      r0.s ≤ d.ord ∧ d.ord < r0.e ∧ Instance (parse genCfg c) d tmo ∧
+      (tranges ≠ [] → ∃ tm ms, ∃ tr0 ∈ tranges, tmo = some tm ∧ msOf tm.hour tm.minute tm.second = .ok ms ∧
+        tr0.s ≤ ms ∧ ms < tr0.e) := by
+  rw [evaluate_eq_stages, resolveDurations_eq,
+    resolveDurations_nodur genCfg _ cands [] (fun c hc => candKind_nodur _ (hyp.cand c hc))] at hout
+  simp only [List.nil_append, bind, Except.bind] at hout
+  exact stages234_sound cands constraints dranges tranges hyp fuel out hout
+
+/-! ## duration candidates -/
+
+/-- hypotheses of `evaluate_sound_durations`: each candidate is of a `CandKind` family (with a clock-like time if any)
+**or a duration** in hours, minutes, days or weeks (`DurKind`); every constraint that carries a time of day is a
+definite datetime `YYYY-MM-DDThh[:mm[:ss]]` (`TimedAreDatetimes` — so time ranges, if any, are parts of day);
+date ranges / time ranges as in `EvalHyp`. -/
+structure EvalHypDur (cands constraints : List Str) (dranges : List DateRange) (tranges : List TimeRange) : Prop where
+  cand : ∀ c ∈ cands, (CandKind (parse genCfg c) ∧ ∀ tm, (parse genCfg c).time = some tm → ClockT tm) ∨
+    DurKind (parse genCfg c)
+  timed : TimedAreDatetimes (constraints.map (parse genCfg))
+  dr : ((constraints.map (parse genCfg)).filter fun t => (infer t).daterange).mapM daterangeFromTimex = .ok dranges
+  dne : dranges ≠ []
+  tr : ((constraints.map (parse genCfg)).filter fun t => (infer t).timerange).mapM (timerangeFromTimex genCfg) = .ok tranges
+
+/-- C15 **evaluate_sound_durations** — `evaluate` with duration candidates (`PTnH`, `PTnM`, `PnD`, `PnW`) next to the
+other families.  Stage 1 turns a duration `D` and each datetime constraint `S = d0 Th:m:s` into the calendar sum
+`S + D` (`DurSpec`: hours and minutes carry into the next days, day and week durations drop the time of day); the
+later stages treat that definite date as a month-day.  Every returned TIMEX string `s` is a valid definite date `d`
+(+ optional time `tmo`), lies inside a SUPPLIED date range (and time range, when given), and is either an instance of
+a non-duration candidate, or has the month, day and time of `S + D` for a duration candidate `D` and a supplied
+datetime constraint `S`. -/
+theorem evaluate_sound_durations (cands constraints : List Str) (dranges : List DateRange) (tranges : List TimeRange)
+    (hyp : EvalHypDur cands constraints dranges tranges) (fuel : Nat) (out : List Str)
+    (hout : evaluate genCfg fuel cands constraints = .ok out) :
+    ∀ s ∈ out, ∃ (d : Date) (tmo : Option Time), ∃ r0 ∈ dranges,
+      d.valid = true ∧ s = isoDateStr d ++ fmtTime tmo ∧ parse genCfg s = dateTimex d tmo ∧
+      r0.s ≤ d.ord ∧ d.ord < r0.e ∧
+      (tranges ≠ [] → ∃ tm ms, ∃ tr0 ∈ tranges, tmo = some tm ∧ msOf tm.hour tm.minute tm.second = .ok ms ∧
+        tr0.s ≤ ms ∧ ms < tr0.e) ∧
+      ((∃ c ∈ cands, CandKind (parse genCfg c) ∧ Instance (parse genCfg c) d tmo) ∨
+       (∃ c ∈ cands, DurKind (parse genCfg c) ∧ ∃ S ∈ constraints.map (parse genCfg),
+          ∃ (d0 : Date) (h m sec : Nat) (d1 : Date) (tmo1 : Option Time),
+            S = dateTimex d0 (some ⟨.int h, .int m, .int sec⟩) ∧ DurSpec d0 h m sec (parse genCfg c) d1 tmo1 ∧
+            d.m = d1.m ∧ d.d = d1.d ∧ (∀ tm, tmo1 = some tm → tmo = some tm))) := by
+  rw [evaluate_eq_stages] at hout
+  simp only [bind, Except.bind] at hout
+  cases ha : resolveDurations genCfg cands (constraints.map (parse genCfg)) with
+  | error e => simp [ha] at hout
+  | ok a =>
+    simp only [ha] at hout
+    have hk : ∀ c ∈ cands, (infer (parse genCfg c)).duration = false ∨ DurKind (parse genCfg c) := by
+      intro c hc
+      rcases hyp.cand c hc with h | h
+      · exact Or.inl (candKind_nodur _ h.1)
+      · exact Or.inr h
+    have horig := durStage_sound genCfg cands _ a hk hyp.timed ha
+    -- the list stage 1 hands on satisfies the hypotheses of stages 2–4
+    have hparse : ∀ s1 ∈ a, CandKind (parse genCfg s1) ∧ ∀ tm, (parse genCfg s1).time = some tm → ClockT tm := by
+      intro s1 hs1
+      rcases horig s1 hs1 with ⟨hc, hnd⟩ | ⟨c, hc, hdk, S, hS, d0, h, m, sec, d1, tmo1, rfl, hv1, hc1, hspec, rfl⟩
+      · rcases hyp.cand s1 hc with h | h
+        · exact h
+        · rw [durKind_dur _ h] at hnd; cases hnd
+      · rw [reparse genCfg genCfg_ok' d1 hv1 tmo1 hc1]
+        exact ⟨CandKind.definite _ _ _ _, fun tm htm => hc1 tm htm⟩
+    have hyp2 : EvalHyp a constraints dranges tranges :=
+      { cand := fun s1 hs1 => (hparse s1 hs1).1
+        candClock := fun s1 hs1 => (hparse s1 hs1).2
+        dr := hyp.dr
+        dne := hyp.dne
+        tr := hyp.tr
+        conClock := by
+          intro t ht hti
+          obtain ⟨d0, h, m, sec, _, b1, b2, b3, rfl⟩ := hyp.timed t ht hti
+          exact ⟨h, m, sec, b1, b2, b3, rfl⟩ }
+    intro s hs
+    obtain ⟨s1, hs1, d, tmo, r0, hr0, hv, hstr, hps, h1, h2, hinst, htr⟩ :=
+      stages234_sound a constraints dranges tranges hyp2 fuel out hout s hs
+    refine ⟨d, tmo, r0, hr0, hv, hstr, hps, h1, h2, htr, ?_⟩
+    rcases horig s1 hs1 with ⟨hc, hnd⟩ | ⟨c, hc, hdk, S, hS, d0, h, m, sec, d1, tmo1, rfl, hv1, hc1, hspec, rfl⟩
+    · exact Or.inl ⟨s1, hc, (hparse s1 hs1).1, hinst⟩
+    · rw [reparse genCfg genCfg_ok' d1 hv1 tmo1 hc1] at hinst
+      have hmd := hinst.2.1 d1.m d1.d rfl rfl
+      refine Or.inr ⟨c, hc, hdk, _, hS, d0, h, m, sec, d1, tmo1, rfl, hspec, by omega, by omega, ?_⟩
+      intro tm htm
+      exact hinst.2.2 tm (by rw [htm]; rfl)
+
+/-- the hypotheses of `evaluate_sound_durations` are satisfiable: candidates `PT2H`, `XXXX-WXX-3`; constraints
+`2020-01-15T10` and `2020-01`; and what the model computes for them -/
+example : EvalHypDur [[80, 84, 50, 72], [88, 88, 88, 88, 45, 87, 88, 88, 45, 51]]
+    [[50, 48, 50, 48, 45, 48, 49, 45, 49, 53, 84, 49, 48], [50, 48, 50, 48, 45, 48, 49]]
+    [⟨(⟨2020, 1, 1⟩ : Date).ord, (⟨2020, 2, 1⟩ : Date).ord⟩] [] := by
+  have p1 : parse genCfg [80, 84, 50, 72] = { hours := some (.dec false 2 0) } := by decide
+  have p2 : parse genCfg [88, 88, 88, 88, 45, 87, 88, 88, 45, 51] = { dayOfWeek := some (.int 3), time := none } := by decide
+  have p3 : parse genCfg [50, 48, 50, 48, 45, 48, 49, 45, 49, 53, 84, 49, 48] =
+      dateTimex ⟨2020, 1, 15⟩ (some ⟨.int (10 : Nat), .int (0 : Nat), .int (0 : Nat)⟩) := by decide
+  refine ⟨?_, ?_, by decide, by simp, by decide⟩
+  · intro c hc
+    simp only [List.mem_cons, List.not_mem_nil, or_false] at hc
+    rcases hc with rfl | rfl
+    · right; rw [p1]; exact DurKind.hours _ (by decide)
+    · left; rw [p2]; exact ⟨CandKind.weekday 3 _, fun tm h => by cases h⟩
+  · intro t ht hti
+    simp only [List.map_cons, List.map_nil, List.mem_cons, List.not_mem_nil, or_false] at ht
+    rcases ht with rfl | rfl
+    · exact ⟨⟨2020, 1, 15⟩, 10, 0, 0, by decide, by omega, by omega, by omega, p3⟩
+    · exact absurd hti (by decide)
+
+example : evaluate genCfg 64 [[80, 84, 50, 72], [88, 88, 88, 88, 45, 87, 88, 88, 45, 51]]
+    [[50, 48, 50, 48, 45, 48, 49, 45, 49, 53, 84, 49, 48], [50, 48, 50, 48, 45, 48, 49]] =
+    .ok [[50, 48, 50, 48, 45, 48, 49, 45, 49, 53, 84, 49, 50], [50, 48, 50, 48, 45, 48, 49, 45, 48, 49, 84, 49, 48],
+         [50, 48, 50, 48, 45, 48, 49, 45, 48, 56, 84, 49, 48], [50, 48, 50, 48, 45, 48, 49, 45, 49, 53, 84, 49, 48],
+         [50, 48, 50, 48, 45, 48, 49, 45, 50, 50, 84, 49, 48], [50, 48, 50, 48, 45, 48, 49, 45, 50, 57, 84, 49, 48]] := by
+  decide
+
+/-- C15 **evaluate_complete_hours** — completeness for the duration family: an hours candidate `PTnH`, one datetime
+constraint `S = d0 Th:m:s` and one pure date-range constraint `[r.s, r.e)`: if the calendar sum `S + n hours`
+(date `d1`, time `(h+n) mod 24 : m : s`) lies in the range, its TIMEX is in the result. -/
+theorem evaluate_complete_hours (cand Sstr cstr : Str) (x : Num) (hx : 0 ≤ x.toInt)
+    (hp : parse genCfg cand = { hours := some x })
+    (d0 : Date) (hv0 : d0.valid = true) (h m sec : Nat) (hh : h < 100) (hm : m < 100) (hs : sec < 100)
+    (hS : parse genCfg Sstr = dateTimex d0 (some ⟨.int h, .int m, .int sec⟩))
+    (r : DateRange)
+    (hty : (infer (parse genCfg cstr)).daterange = true ∧ (infer (parse genCfg cstr)).time = false ∧
+      (infer (parse genCfg cstr)).timerange = false)
+    (hrng : daterangeFromTimex (parse genCfg cstr) = .ok r)
+    (fuel : Nat) (out : List Str) (hout : evaluate genCfg (fuel + 1) [cand] [Sstr, cstr] = .ok out) :
+    ∀ d1 : Date, d1.valid = true → (d1.ord : Int) = d0.ord + (h + x.toInt) / 24 → r.s ≤ d1.ord → d1.ord < r.e →
+      isoDateStr d1 ++ fmtTime (some ⟨.int ((h + x.toInt) % 24), .int m, .int sec⟩) ∈ out := by
+  intro d1 hv1 hord hr1 hr2
+  have hdk : DurKind (parse genCfg cand) := by rw [hp]; exact DurKind.hours x hx
+  have hiS := infer_dateTimex d0 (some ⟨.int h, .int m, .int sec⟩)
+  have hSdt : (infer (parse genCfg Sstr)).datetime = true := by
+    rw [hS]; simp [infer, dateTimex, Timex.fromDate, isDate, isTime]
+  have hSdr : (infer (parse genCfg Sstr)).daterange = false := by
+    rw [hS]; simp [infer, dateTimex, Timex.fromDate, isDate, isTime, isDateRange, isDuration, truthyS, truthyO]
+  rw [evaluate_eq_stages] at hout
+  simp only [List.map_cons, List.map_nil, bind, Except.bind] at hout
+  cases ha : resolveDurations genCfg [cand] [parse genCfg Sstr, parse genCfg cstr] with
+  | error e => simp [ha] at hout
+  | ok a =>
+    simp only [ha] at hout
+    -- stage 1
+    obtain ⟨r1, s1, hadd, hf, hs1⟩ := durStage_complete genCfg [cand] _ a ha cand (by simp) hdk
+      (parse genCfg Sstr) (by simp) hSdt
+    rw [hS, hp] at hadd
+    obtain ⟨d1', tm1, rfl, hv1', hc1, ho1, htm1⟩ := datetimeAdd_hours d0 hv0 h m sec hh hm hs x hx r1 hadd
+    have hdd : d1' = d1 := ord_inj d1' d1 hv1' hv1 (by omega)
+    subst hdd
+    rw [format_dateTimex d1' hv1'] at hf
+    cases hf
+    subst htm1
+    -- stages 2-4
+    unfold stages234 at hout
+    simp only [List.map_cons, List.map_nil, bind, Except.bind] at hout
+    cases hb : resolveByDateRangeConstraints genCfg (fuel + 1) a [parse genCfg Sstr, parse genCfg cstr] with
+    | error e => simp [hb] at hout
+    | ok b =>
+      simp only [hb] at hout
+      cases hc3 : resolveByTimeConstraints genCfg b [parse genCfg Sstr, parse genCfg cstr] with
+      | error e => simp [hc3] at hout
+      | ok c3 =>
+        simp only [hc3] at hout
+        have hdesc : Desc (isoDateStr d1' ++ fmtTime (some ⟨.int ((h + x.toInt) % 24), .int m, .int sec⟩)) d1'
+            (some ⟨.int ((h + x.toInt) % 24), .int m, .int sec⟩) := ⟨hv1', fun tm e => by cases e; exact hc1, rfl⟩
+        have hps := reparse genCfg genCfg_ok' d1' hv1' _ hdesc.2.1
+        -- stage 2: the single range, the definite date as a month-day in its own year
+        have h1 : ([parse genCfg Sstr, parse genCfg cstr].filter fun t => (infer t).daterange).mapM daterangeFromTimex = .ok [r] := by
+          simp [List.filter, hSdr, hty.1, hrng, List.mapM_cons, List.mapM_nil, bind, Except.bind, pure, Except.pure]
+        have hcol : collapseDates (fuel + 1) [r] = .ok [r] := by
+          simp [collapseDates, collapseLoop, innerCollapse, sortBy, insertBy, pure, Except.pure]
+        have hbnd := daterangeFromTimex_bounds _ r hrng
+        have hin2 : isoDateStr d1' ++ fmtTime (some ⟨.int ((h + x.toInt) % 24), .int m, .int sec⟩) ∈ b := by
+          have hdm := dateStage_mem genCfg (fuel + 1) a _ b [r] [r] h1 hcol rfl hb
+            (isoDateStr d1' ++ fmtTime (some ⟨.int ((h + x.toInt) % 24), .int m, .int sec⟩))
+          -- the candidate's own resolution succeeded because the stage did
+          obtain ⟨xx, hxx⟩ := dateStage_each_ok genCfg (fuel + 1) a _ b [r] [r] h1 hcol rfl hb _ hs1 r (by simp)
+          rw [hps] at hxx
+          refine hdm.mpr ⟨_, hs1, r, by simp, xx, by rw [hps]; exact hxx, ?_⟩
+          have hdf : dateFromTimex { (dateTimex d1' (some ⟨.int ((h + x.toInt) % 24), .int m, .int sec⟩)) with
+              year := some (.int (d1'.y : Int)) } = .ok d1' := by
+            simp [dateFromTimex, dateTimex, Timex.fromDate, toInt_int, mkDate, hv1', pure, Except.pure]
+          refine resolveMonthDay_complete _ r xx hbnd.1 hbnd.2.2.2 (by simp [andChainNotNone, dateTimex, Timex.fromDate]) hxx
+            d1'.y d1' _ hdf rfl hr1 hr2 ?_ ?_
+          · have := format_dateTimex d1' hv1' (some ⟨.int ((h + x.toInt) % 24), .int m, .int sec⟩)
+            simpa [dateTimex, Timex.fromDate] using this
+          · simp [isoDateStr, d4]
+        -- stage 3 keeps it, stage 4 has no time range
+        have hin3 := timeStage_keep genCfg genCfg_ok' b _ c3 hc3 _ hin2 d1' _ hdesc
+        rw [resolveByTimerangeConstraints_none genCfg fuel c3 _ (by
+          intro t ht
+          simp only [List.mem_cons, List.not_mem_nil, or_false] at ht
+          rcases ht with rfl | rfl
+          · rw [hS]; exact hiS.2.2
+          · exact hty.2.2)] at hout
+        cases hout
+        exact hin3
 
 /-- with pure date-range constraints `evaluate` of non-duration candidates is its date-range stage -/
 theorem evaluate_dateOnly_eq (cands cs : List Str) (ranges : List DateRange) (h : DateOnly cs ranges)
